@@ -17,11 +17,31 @@ pub fn any_psks() -> [[u8; 32]; 10] {
             p[i][j] = (i as u8).wrapping_mul(37).wrapping_add(j as u8);
             j += 1;
         }
-        p[i][0] = kani::any();
-        p[i][1] = kani::any();
+        let b = sym8();
+        p[i][0] = b[0];
+        p[i][1] = b[1];
         i += 1;
     }
     p
+}
+
+/// When set, `sym8` hands out fixed constants instead of symbolic bytes (C06 keeps all cryptographic inputs
+/// concrete so that equal key bytes can only come from equal derivations, never from a solver-made toy collision).
+pub static mut CONCRETE_INPUTS: bool = false;
+static mut CONCRETE_CTR: u8 = 0;
+pub fn sym8() -> [u8; 8] {
+    unsafe {
+        if CONCRETE_INPUTS {
+            CONCRETE_CTR = CONCRETE_CTR.wrapping_add(1);
+            let c = CONCRETE_CTR;
+            [c, c ^ 0x5A, c.wrapping_mul(3), 0x11, c.wrapping_add(0x40), 0x7E, c.rotate_left(3), 0x01]
+        } else {
+            kani::any()
+        }
+    }
+}
+pub fn sym1() -> [u8; 1] {
+    [sym8()[0]]
 }
 
 pub struct Pair {
@@ -31,8 +51,8 @@ pub struct Pair {
 
 /// Two reference-model parties with consistent, symbolic configuration.
 pub fn rm_pair<P: Prims>(pat: Pat, psk_mask: u16, name: &[u8], prologue: &[u8]) -> Pair {
-    let si: [u8; 8] = kani::any();
-    let sr: [u8; 8] = kani::any();
+    let si: [u8; 8] = sym8();
+    let sr: [u8; 8] = sym8();
     let mut pi = [0u8; 8];
     let mut pr = [0u8; 8];
     P::pubkey(&si[..P::SL], &mut pi);
@@ -69,8 +89,8 @@ pub fn rm_advance<P: Prims>(pair: &mut Pair, k: usize) {
     let mut m = 0;
     let mut ok = true;
     while m < k {
-        let e: [u8; 8] = kani::any();
-        let pl: [u8; 1] = kani::any();
+        let e: [u8; 8] = sym8();
+        let pl: [u8; 1] = sym1();
         let mut msg = [0u8; MSGBUF];
         let mut out = [0u8; MSGBUF];
         let (w, r) = if m % 2 == 0 { (&mut pair.i, &mut pair.r) } else { (&mut pair.r, &mut pair.i) };
